@@ -71,8 +71,11 @@ def import_package_resource(name: str) -> Iterator[Path]:
     #        filesystem resource loader which returns pathlib.Path objects
     path: Path = importlib.resources.files(name)  # type: ignore[assignment]
     yield path
-    if hasattr(path.root, 'close'):
-        path.root.close()
+    # Only a zip-like path has an archive to close (the path of a
+    # namespace package does not even have a ``root``).
+    root = getattr(path, 'root', None)
+    if hasattr(root, 'close'):
+        root.close()
 
 
 class TemplateLoader:
